@@ -228,9 +228,9 @@ def build_cases(ctx, meta, keys, gen_frames):
     rng = ctx.rng.fork("cases")
     quick = ctx.tier == "quick"
     cases = Cases()
-    per_schema_valid = 4 if quick else 40
-    mut_samples = 1 if quick else 6
-    n_trunc, n_mut = (40, 60) if quick else (150, 300)
+    per_schema_valid = 4 if quick else 20
+    mut_samples = 1 if quick else 3
+    n_trunc, n_mut = (40, 60) if quick else (100, 200)
     for s in meta["schemas"]:
         side = s["write"]
         ntlv = len(side["tail"][1]) if side["tail"][0] == "TTlv" else 0
@@ -284,7 +284,7 @@ def build_cases(ctx, meta, keys, gen_frames):
         for _ in range(3 if quick else 30):
             cases.add("random", s["name"], suffix=s["type"].to_bytes(2, "big") + rbytes(rng, rng.below(120)))
     # frames of values built by the Rust generator (irregular codecs): valid + truncations + mutations
-    nmut = 22 if quick else 400
+    nmut = 22 if quick else 150
     for gi, (name, fr, ok) in enumerate(gen_frames):
         if gi >= nmut:
             cases.add("gen", name, suffix=fr, rt=ok, expect_payload=fr[2:] if name != "Init" else None)
@@ -552,7 +552,7 @@ def run(ctx):
     # ---- implementation side
     rc, klines = ctx.run_bin("h_wire", "", args=["keys", "24", str(ctx.seed)])
     keys = [bytes.fromhex(l.strip()) for l in klines if len(l.strip()) == 66]
-    ngen = 110 if ctx.tier == "quick" else 4400
+    ngen = 110 if ctx.tier == "quick" else 2200
     rc2, glines = ctx.run_bin("h_wire", "", args=["gen", str(ngen), str(ctx.seed)])
     gen_frames = []
     gen_panics = []
@@ -618,8 +618,13 @@ def run(ctx):
     if judged:
         # shrink: shortest failing frame first
         judged.sort(key=lambda f: len(f.get("frame", "")))
+        by_msg = {}
+        for f in judged:
+            kk = "%s: %s" % (f.get("message"), f["why"])
+            by_msg[kk] = by_msg.get(kk, 0) + 1
+        ctx.coverage["judge_failures_by_message"] = by_msg
         ctx.violation("C13 fails on the implementation: %s (%s)" % (judged[0]["why"], judged[0].get("message")),
-                      {"broken": broken or "implementation judge", "failing_input": judged[0], "n_failing": len(judged), "more": judged[1:4], "replay_cmd": replay_cmd}, True,
+                      {"broken": broken or "implementation judge", "failing_input": judged[0], "n_failing": len(judged), "failures_by_message": by_msg, "more": judged[1:4], "replay_cmd": replay_cmd}, True,
                       key="judge:%s:%s" % (judged[0].get("message"), judged[0]["why"]))
     elif broken:
         ctx.violation("C13 no longer shown: " + ("schema extraction" if gen_err else ("proof" if not proved else "correspondence")) + " broken",
